@@ -9,6 +9,7 @@ VERIF_CALIBRATE=1: accuracy is not judged; the worst observed err/(S*fac) is rep
 (method[, order]) and per (method, family, generator kind) under measures 'cal/...'.
 """
 import json
+import itertools
 import math
 import os
 import warnings
@@ -520,13 +521,19 @@ def work_quartic(chunk):
         # rounding of a second difference: eps |f| / h^2 with h >= 0.01, amplified by the extrapolation weights
         allow = 1e-8 * size(x)
         entries = [('Hessian', None)] + [('Hessdiag', o) for o in ((2,) if method == 'multicomplex' else (2, 4))]
-        for entry, order in entries:
+        # the base step as a scalar, and per coordinate (documented "float, array-like") as ndarray / list: the four steps
+        # of every coordinate still determine the h, h^2 terms of a quartic exactly
+        per = [0.01, 0.02, 0.005, 0.015][:n]
+        forms = [('scalar', 0.01)] + ([('ndarray', np.array(per)), ('list', list(per))] if n > 1 else [])
+        for (entry, order), (form, base) in itertools.product(entries, forms):
             fw.fresh_library_state()
-            kw = dict(method=method, step=MinStepGenerator(base_step=0.01, num_steps=4, step_ratio=2))
+            kw = dict(method=method, step=MinStepGenerator(base_step=base, num_steps=4, step_ratio=2))
             if order is not None:
                 kw['order'] = order
-            case = ('quartic', n, xk, method, entry, order)
+            case = ('quartic', n, xk, method, entry, order) + (() if form == 'scalar' else (form,))
             jc = dict(kind='quartic', n=n, xkind=xk, method=method, entry=entry, order=order)
+            if form != 'scalar':
+                jc['base_step_form'] = form
             try:
                 with warnings.catch_warnings():
                     warnings.simplefilter('ignore')
@@ -534,15 +541,15 @@ def work_quartic(chunk):
                         val = np.asarray(getattr(nd, entry)(f, **kw)(x))
             except Exception as e:      # noqa: BLE001
                 acc.case(case, nontrivial=True, cell='quartic/%s' % method, outcome='raised')
-                acc.violation('C04:%s:raised-%s:quartic' % (entry, type(e).__name__), jc, '%s: %s' % (type(e).__name__, e), n)
+                acc.violation('C04:%s:raised-%s:quartic%s' % (entry, type(e).__name__, '' if form == 'scalar' else ':base_step-' + form), jc, '%s: %s' % (type(e).__name__, e), n)
                 continue
             want = H if entry == 'Hessian' else np.diag(H)
             err = float(np.max(np.abs(val - want))) if val.shape == want.shape else float('inf')
             acc.case(case, nontrivial=True, cell='quartic/%s' % method, outcome=err <= allow)
             acc.maxi('quartic/worst error over allowance', err / allow)
             if not err <= allow:
-                acc.violation('C04:%s:quartic-inexact:%s' % (entry, method), jc,
-                              '%s(quartic polynomial, method=%r%s, step=MinStepGenerator(base_step=0.01, num_steps=4, step_ratio=2))'
+                acc.violation('C04:%s:quartic-inexact:%s%s' % (entry, method, '' if form == 'scalar' else ':base_step-' + form), jc,
+                              '%s(quartic polynomial, method=%r%s, step=MinStepGenerator(base_step=' + repr(base if form == 'scalar' else per) + ' (' + form + '), num_steps=4, step_ratio=2))'
                               '(%r): max error %.3g > %.3g (the four steps determine the h, h^2 terms of a quartic exactly); got %r, '
                               'exact %r' % (entry, method, '' if order is None else ', order=%d' % order, x.tolist(), err, allow,
                                             val.tolist(), want.tolist()), n)
